@@ -111,6 +111,30 @@ def rule_inner_dist_table(ctx, m):
     ret = [s for s in fns.body if s.k == 'return']
     ok = bool(ret) and fmt(ret[-1].value) == '(use_cls.inner_dist, use_cls.result, use_cls.inner_val)'
     ctx.check(ok, 'R-TAB', pm.path, 'inner_dist_fns', 'triple order', 'the triple is (point distance, result, inner_val) by position', fns.line)
+    # every in-package lookup of the table selects the entry with the caller's inner distance (the default is 'squared euclidean':
+    # a lookup that omits the argument pairs the caller's point distance with the squared transform of penalty / max_step / max_dist)
+    from ..pyfront import PY_MODULES
+    from ..pyres import bind_args
+    nlook = 0
+    for mname in PY_MODULES:
+        mod = m.py(mname)
+        for q, f in sorted(mod.funcs.items()):
+            for st, call in calls_in(f.body):
+                d = dotted(call[1]) or ''
+                last = d.split('.')[-1]
+                if last not in ('inner_dist_fns', 'inner_dist_cls'):
+                    continue
+                target = pm.funcs.get(last)
+                if target is None or any(k is None for k, _ in call[3]) or any(a[0] == 'star' for a in call[2]):
+                    continue
+                mapping, _, _ = bind_args(target, False, call)
+                nlook += 1
+                a = mapping.get('inner_dist')
+                ok = a is not None and 'inner_dist' in fmt(a)
+                ctx.check(ok, 'R-TAB', mod.path, q, 'lookup %s selects by inner_dist' % last,
+                          'the inner-distance table is consulted with %s instead of the inner distance in effect: point distance and settings transform can '
+                          'come from different table entries' % ('the default entry' if a is None else fmt(a)[:60]), st.line)
+    ctx.count('inner-distance lookups', nlook)
     # C: kernel kind per dispatch target
     from .kern import kernel_kind
     ctx.count('inner-distance table entries', len(enc) + len(dec) + len(kinds))
